@@ -10,6 +10,7 @@ from cobald.monitor.format_json import JsonFormatter, RECORD_ATTRIBUTES
 from cobald.monitor.format_line import LineProtocolFormatter
 
 from vlib.core import Result, TestDef
+from vlib.fuzz import fuzz_testdef
 from vlib.lineproto import LineProtocolError, parse_line
 
 ID = "C17"
@@ -214,4 +215,4 @@ def tests(tier):
     return [
         TestDef("line", run_line, strategy=line_case(), quick=20000, thorough=600000),
         TestDef("json", run_json, strategy=json_case(), quick=6000, thorough=200000),
-    ]
+    ] + ([fuzz_testdef("c17", 150000, max_len=256)] if tier == "thorough" else [])
